@@ -19,8 +19,8 @@ import (
 func init() { register("C17", "exploration", runC17) }
 
 func runC17(r *ev.Run) {
-	r.SetRule("servers with small limits (4-8 mailboxes, 2-6 messages per mailbox, highest UID 6-16) run histories of CREATE (depth 1-3, i.e. with implicit parents), RENAME onto deep names, DELETE, APPEND, COPY / MOVE of 1-4 messages, EXPUNGE, and connector MessagesCreated (1-4 messages into 1-2 mailboxes), MessageMailboxesUpdated and MailboxCreated, followed by a concurrent phase (3-8 sessions APPEND / COPY into a nearly full mailbox and CREATE at the mailbox limit at the same time). After every step fresh views and LIST are taken and the monitor checks: mailboxes <= max, messages per mailbox <= max, every UID <= max; an operation answered NO / acknowledged with an error leaves every mailbox (UIDs, UIDNEXT, flags) and the mailbox list unchanged; an operation that fits by the counts before it is accepted. distinct = distinct (operation, fits?, outcome) triples")
-	r.Assume("the hidden recovery mailbox counts as one mailbox for the 'fits' rule but not for the upper bound check (the bound is checked against the mailboxes LIST shows as selectable); COPY/MOVE are only required to be accepted when the destination holds none of the messages yet; the UID maximum is exclusive for the 'fits' rule (gluon's own suite asserts that), inclusive for the upper-bound check")
+	r.SetRule("servers with small limits (4-8 mailboxes, 2-6 messages per mailbox, highest UID 6-16) run histories of CREATE (depth 1-3, i.e. with implicit parents), RENAME onto deep names (also of INBOX, which creates the target and keeps INBOX), DELETE, APPEND, COPY / MOVE of 1-4 messages, EXPUNGE, and connector MessagesCreated (1-4 messages into 1-2 mailboxes), MessageMailboxesUpdated and MailboxCreated, followed by a concurrent phase (3-8 sessions APPEND / COPY into a nearly full mailbox and CREATE at the mailbox limit at the same time). After every step fresh views and LIST are taken and the monitor checks: mailboxes <= max, messages per mailbox <= max, every UID <= max; an operation answered NO / acknowledged with an error leaves every mailbox (UIDs, UIDNEXT, flags) and the mailbox list unchanged; an operation that fits by the counts before it is accepted. distinct = distinct (operation, fits?, outcome) triples")
+	r.Assume("the recovery mailbox, which exists from the start and is listed only while it holds something, counts as one mailbox both for the 'fits' rule and for the upper bound (selectable mailboxes in LIST other than it, plus one); COPY/MOVE are only required to be accepted when the destination holds none of the messages yet; the UID maximum is exclusive for the 'fits' rule (gluon's own suite asserts that), inclusive for the upper-bound check")
 
 	hist := r.Pick(250, 2500)
 
@@ -103,8 +103,10 @@ func (c *c17Case) observe(after string) (map[string]*BoxView, []string, bool) {
 
 	sort.Strings(names)
 
-	if len(names) > c.maxBox {
-		c.violate("C17 too-many-mailboxes after "+after, fmt.Sprintf("after %s there are %d mailboxes %v; the configured maximum is %d", after, len(names), names, c.maxBox))
+	// the recovery mailbox exists from the start (LIST shows it only while it holds something): it is one of
+	// the user's mailboxes, and the server's own accounting counts it
+	if len(names)+1 > c.maxBox {
+		c.violate("C17 too-many-mailboxes after "+after, fmt.Sprintf("after %s there are %d mailboxes: %v and the recovery mailbox; the configured maximum is %d", after, len(names)+1, names, c.maxBox))
 		return nil, nil, false
 	}
 
@@ -329,9 +331,9 @@ func c17History(r *ev.Run, label string, steps int) {
 			if !c.judge("DELETE "+box, res.OK(), true, false) {
 				return
 			}
-		case k < 26: // RENAME onto a deep name
-			if box == "INBOX" {
-				continue
+		case k < 26: // RENAME onto a deep name; RENAME INBOX creates the new mailbox and keeps INBOX
+			if rng.Intn(4) == 0 {
+				box = "INBOX"
 			}
 
 			name := randName()
@@ -341,8 +343,11 @@ func c17History(r *ev.Run, label string, steps int) {
 				continue
 			}
 
-			// the renamed mailbox itself is not new
+			// the renamed mailbox itself is not new - unless it is INBOX, which stays
 			fits := len(c.listing)+1+miss-1 <= c.maxBox
+			if box == "INBOX" {
+				fits = len(c.listing)+1+miss <= c.maxBox
+			}
 
 			// inferiors that would collide make the rename fail for another reason
 			remoteBefore := conn.SnapshotMailboxes()
